@@ -138,7 +138,15 @@ func TestCheck(t *testing.T) {
 		}
 	}
 	r.Count("watcher_after_return_and_cancel_trials", dangerous) // only possible when NewConn does not wait for its watcher
-	r.Floor("late_watcher_and_context_ended_trials", 200)
+	// The floor on the dangerous schedule only makes sense for an implementation that HAS that schedule: one whose
+	// first look at ctx.Done() can come after the hello was read (a watcher goroutine that is scheduled late). An
+	// implementation that registers for the context's end synchronously on entry (context.AfterFunc, for instance)
+	// never shows a single such trial; then the behavioural rules (a)-(c) are all there is to judge, and they were.
+	if r.Counter("late_watcher_trials") > 0 {
+		r.Floor("late_watcher_and_context_ended_trials", 200)
+	} else {
+		r.Extra("late_watcher_schedule", "never observed: this implementation looks at ctx.Done() before it reads; the schedule-coverage floor does not apply")
+	}
 	r.Floor("trials_completed", int64(idx/2))
 	r.Floor("trials_with_retry_after_context_end", int64(idx/5))
 	r.Sample(map[string]any{"hello_len": len(hello), "post_return_record": mon.Hex(app), "classes": classCount})
